@@ -93,6 +93,22 @@ def instant_completion_family():
                 yield {'names': names, 'phens': ONEBLOCK, 'cache': 1000, 'periods': dict(SMALL_PERIODS), 'ops': ops}
 
 
+def finish_only_backlog_family():
+    """the only thing a failed SYNC carried is the completion (or the halt) of a run: it sits alone in the peer's backlog,
+    the link comes back and nothing else changes locally -- the backlog must still be sent on its own."""
+    warm = ['sync', 'in A 0', 'sync', 'in A 1', 'sync', 'in A 2', 'sync']      # replicated everywhere, nothing queued or pending
+    for fin in (['in A 3'], ['in A 9']):     # completes / halts the replicated run of the 4-block pattern: nothing else changes
+        for fail in ('down', 'dup'):
+            for periods in (None, dict(SMALL_PERIODS)):
+                ops = list(warm) + [f'{fail} A B'] + fin + ['pass A'] + (['del A B'] if fail == 'dup' else [])
+                ops += ['up A B', 'heal']
+                sc = {'names': ['A', 'B'], 'phens': CONFLICT, 'cache': 1000, 'ops': ops}
+                if periods:
+                    sc['periods'] = periods
+                yield sc
+                yield {**sc, 'names': ['A', 'B', 'C'], 'ops': [o for o in ops if o != 'heal'] + ['pass A', 'del A C', 'heal']}
+
+
 def fault_scenario(rng, small=None):
     small = rng.random() < 0.5 if small is None else small
     sc = scenario(rng, faults=True, ticks=True)
